@@ -89,6 +89,9 @@ type tkStep struct {
 	Src    int    `json:"src,omitempty"`  // swap-blob: token whose sealed value is copied in
 	Arg    int    `json:"arg,omitempty"`  // truncate: keep len*Arg/8 bytes (8: len-1); garbage-blobinfo: ciphertext length
 	Data   string `json:"data,omitempty"` // garbage: hex of the bytes written
+	// use: the fetch is made with WithSkipStorage(true) (the caller wants the answer, not the record): the
+	// token is used all the same
+	NoStore bool `json:"fetch_with_skip_storage,omitempty"`
 }
 
 // tkCase is one history
@@ -714,6 +717,10 @@ func (h *tkRun) doUse(st *tkStep) {
 	if st.Life != tokensDefault {
 		extra = append(extra, nodeenrollment.WithMaximumServerLedActivationTokenLifetime(life))
 	}
+	if st.NoStore {
+		extra = append(extra, nodeenrollment.WithSkipStorage(true))
+		r.Count("use:fetch-with-skip-storage", 1)
+	}
 	before := h.nodeRecords()
 	mark := len(h.rec.Ops())
 	var resp *types.FetchNodeCredentialsResponse
@@ -837,7 +844,10 @@ func (h *tkRun) doUse(st *tkStep) {
 			r.Violation("token-record-left-after-use", what, w())
 		}
 		want := k.node.K.KeyID
-		if k.registered == "" && !(len(newIDs) == 1 && newIDs[0] == want) {
+		if st.NoStore {
+			r.Count("use:fetch-with-skip-storage:credentials", 1)
+		}
+		if k.registered == "" && !(len(newIDs) == 1 && newIDs[0] == want) && !(st.NoStore && len(newIDs) == 0) {
 			r.Violation("wrong-node-records-after-use", fmt.Sprintf("after a successful token enrollment the new node records are %v, expected exactly the presenting key %s", newIDs, want), w())
 		}
 		if k.registered != "" && len(newIDs) > 0 {
@@ -865,7 +875,7 @@ func (h *tkRun) doUse(st *tkStep) {
 		if t.enrolled > 1 {
 			r.Violation("token-enrolled-twice", fmt.Sprintf("one token produced %d successful enrollments", t.enrolled), w())
 		}
-		if k.registered == "" {
+		if _, stored := after[k.node.K.KeyID]; k.registered == "" && (stored || !st.NoStore) {
 			k.registered = "token"
 			h.enrolledBy[st.Key] = st.Tok
 		}
@@ -1198,6 +1208,10 @@ func tokensDirected(rng *rand.Rand) []tkCase {
 			out = append(out, tkCase{Wrap: wrap, Origin: "directed:registered-key-token", Steps: []tkStep{
 				{Op: "create", State: true}, {Op: "create"}, use(0, 0, life), use(1, 0, life), use(1, 1, life), use(1, 0, life),
 			}})
+			nostore := func(tok, key int) tkStep { return tkStep{Op: "use", Tok: tok, Key: key, Life: life, NoStore: true} }
+			out = append(out, tkCase{Wrap: wrap, Origin: "directed:first-use-with-skip-storage", Steps: []tkStep{
+				{Op: "create"}, nostore(0, 0), nostore(0, 0), use(0, 0, life), use(0, 1, life), nostore(0, 2),
+			}})
 			out = append(out, tkCase{Wrap: wrap, Origin: "directed:token-removal-fault", Steps: []tkStep{
 				{Op: "create"}, {Op: "use-removefail", Tok: 0, Key: 0, Life: life}, use(0, 0, life), use(0, 1, life),
 			}})
@@ -1307,14 +1321,15 @@ func tokensRandomCase(rng *rand.Rand) tkCase {
 			if rng.Intn(12) == 0 {
 				op = "use-removefail"
 			}
-			tc.Steps = append(tc.Steps, tkStep{Op: op, Tok: t, Key: k, Life: life})
+			noStore := op == "use" && rng.Intn(10) == 0
+			tc.Steps = append(tc.Steps, tkStep{Op: op, Tok: t, Key: k, Life: life, NoStore: noStore})
 			m := toks[t]
 			switch {
 			case m.spent:
 			case reg[k]:
 				m.spent = true // the record is removed before the existing-record check
 			case !m.broken && !tokensExpired(m.age, life) && op == "use":
-				m.spent, reg[k] = true, true
+				m.spent, reg[k] = true, !noStore
 			}
 			if rng.Intn(3) == 0 {
 				// follow up with a re-use by the same or another key
